@@ -254,14 +254,17 @@ class HSDPDistributor(DistributorInterface):
         """
         if self._communicate_params:
             # Perform your update to your local masked parameters and copy into buffers.
-            torch._foreach_add_(
-                self._local_masked_blocked_params,
-                masked_blocked_search_directions,
-            )
-            torch._foreach_copy_(
-                self._local_masked_dist_blocked_buffers,
-                self._local_masked_blocked_params,
-            )
+            # NOTE: The local lists are empty if none of the blocks assigned to this rank has a
+            # gradient; the rank still has to participate in the AllGather below.
+            if masked_blocked_search_directions:
+                torch._foreach_add_(
+                    self._local_masked_blocked_params,
+                    masked_blocked_search_directions,
+                )
+                torch._foreach_copy_(
+                    self._local_masked_dist_blocked_buffers,
+                    self._local_masked_blocked_params,
+                )
 
             self.all_gather_into_tensor()
 
@@ -275,10 +278,13 @@ class HSDPDistributor(DistributorInterface):
         else:
             # Search directions multiplied by alpha are distributed.
             # Copy the local search directions to the communication buffer.
-            torch._foreach_copy_(
-                self._local_masked_dist_blocked_buffers,
-                masked_blocked_search_directions,
-            )
+            # NOTE: The local lists are empty if none of the blocks assigned to this rank has a
+            # gradient; the rank still has to participate in the AllGather below.
+            if masked_blocked_search_directions:
+                torch._foreach_copy_(
+                    self._local_masked_dist_blocked_buffers,
+                    masked_blocked_search_directions,
+                )
 
             self.all_gather_into_tensor()
 
